@@ -69,6 +69,9 @@ func (s *Server) Close() {
 	s.srv.Close()
 }
 
+// Current is the number of requests being served right now.
+func (s *Server) Current() int32 { return s.cur.Load() }
+
 func (s *Server) Requests() []Request {
 	s.mu.Lock()
 	defer s.mu.Unlock()
